@@ -39,6 +39,7 @@ import (
 	"git.defalsify.org/vise.git/engine"
 	"git.defalsify.org/vise.git/persist"
 	"git.defalsify.org/vise.git/state"
+	"git.defalsify.org/vise.git/vm"
 )
 
 // serveSession serves one session's history: long-lived engine (store=none) or an engine per request over its
@@ -68,6 +69,7 @@ func serveSession(shared *eCase, own *eCase, sid string, storeKind, dir string, 
 		if f := rs.firstFunc(); f != nil {
 			en = en.WithFirst(f)
 		}
+		en.AddValidInput(concExtraInput)
 		stopped := false
 		for _, in := range inputs {
 			if stopped {
@@ -107,6 +109,7 @@ func serveSession(shared *eCase, own *eCase, sid string, storeKind, dir string, 
 		if f := rs.firstFunc(); f != nil {
 			en = en.WithFirst(f)
 		}
+		en.AddValidInput(concExtraInput)
 		rec := reqRec{}
 		oneRequest(en, in, &rec)
 		func() {
@@ -224,7 +227,7 @@ func genConcCase(c *Ctx) string {
 			}
 			ec.inputs = [][]byte{{}}
 			for k := 0; k < 2+c.Rng.Intn(5); k++ {
-				ec.inputs = append(ec.inputs, []byte(strconv.Itoa(1+c.Rng.Intn(5))), []byte([]string{"0", "9", "0", "7", "x", "x"}[c.Rng.Intn(6)]), []byte([]string{"0", "9", "1"}[c.Rng.Intn(3)]))
+				ec.inputs = append(ec.inputs, []byte(strconv.Itoa(1+c.Rng.Intn(5))), []byte([]string{"0", "9", "0", "7", "x", "x", "!x"}[c.Rng.Intn(7)]), []byte([]string{"0", "9", "1"}[c.Rng.Intn(3)]))
 			}
 			parts = append(parts, ec.String())
 		}
@@ -425,7 +428,15 @@ func concChildMain(args []string) {
 
 var childFails [][2]string
 
+// the application-wide extra input format (engine.AddValidInput, as examples/first does) is registered once per
+// process before any session is served; every engine of every session then asks for it again, which the library
+// answers with "already registered" without touching the table
+var concValidatorOnce sync.Once
+
+const concExtraInput = "^%.*"
+
 func concRun(c *Ctx, line string) string {
+	concValidatorOnce.Do(func() { vm.RegisterInputValidator(0, concExtraInput) })
 	{
 		{
 			parts := strings.Split(line, " ## ")
